@@ -21,7 +21,7 @@ pub fn run(env: &mut Env) -> Outcome {
         Err(o) => return o,
     };
     let base_hist = s.world.server.borrow().history.len();
-    let n = 1 + ctxrc.borrow_mut().choose("n_submissions", 60) as usize;
+    let n = { let mut ctx = ctxrc.borrow_mut(); if ctx.chance("long_sequence", 1, 24) { 250 + ctx.choose("n_submissions_long", 80) as usize } else { 1 + ctx.choose("n_submissions", 60) as usize } };
     let mut accepted: Vec<Sub> = Vec::new();
     for k in 0..n {
         // interleaved server traffic
